@@ -111,6 +111,41 @@ impl Elem for Tok {
     }
 }
 
+
+// ---------------------------------------------------------------- TokX (8 bytes, xor-coded)
+
+const XMASK: u64 = 0x5A5A_A5A5_0F0F_F0F0;
+
+/// Same size and alignment as `Tok`, different representation: the stored word is the
+/// identity xor a mask.  Code that confuses a `TokX` slot with a `Tok` slot (storage reused
+/// across a same-layout type change, a teardown typed with the wrong element type) drops or
+/// observes an identity the ledger never issued, and leaks the real one.
+#[repr(transparent)]
+pub struct TokX {
+    x: u64,
+}
+impl Drop for TokX {
+    fn drop(&mut self) {
+        ledger::drop_id(self.x ^ XMASK);
+        fault::on_drop(self.x ^ XMASK);
+    }
+}
+impl Elem for TokX {
+    const NAME: &'static str = "TokX(8B,xor-coded)";
+    const TRACKED: bool = true;
+    const KEYED: bool = true;
+    fn fresh() -> TokX {
+        TokX { x: ledger::create() ^ XMASK }
+    }
+    fn raw(&self) -> u64 {
+        self.x ^ XMASK
+    }
+    fn key(&self) -> u64 {
+        ledger::observe(self.x ^ XMASK);
+        self.x ^ XMASK
+    }
+}
+
 // ---------------------------------------------------------------- Tok24 (24 bytes)
 
 /// 24-byte tracked element whose padding words are a function of the id; torn or
